@@ -18,7 +18,17 @@ def run(tier):
     t0 = time.time()
     work = C.workdir('C06')
     W.self_check()
-    fam = X.prepare_family(tier, work)
+    ftier = tier
+    if tier == 'quick':
+        # quick family + every optional kind with all its neighbour alignments from the richer family: the size an
+        # absent optional advances by only matters when the next field is less aligned than the optional's value
+        base = F.family('quick')
+        have = set(s.name for s in base)
+        extra = [s for s in F.family('rich') if s.name not in have and s.name.startswith('T_opt_')]
+        fam = X.prepare_family('rich', work, shapes=base + extra)
+        ftier = 'rich'
+    else:
+        fam = X.prepare_family(tier, work)
     maxL = 24 if tier == 'quick' else 40
     timeout = 90 if tier == 'quick' else 600
     conds = []
@@ -38,15 +48,17 @@ def run(tier):
             lens = [l for l in lens if l in keep]
         else:
             lens = sorted(set(range(0, min(size + 6, maxL) + 1)) | set(v for v in valid if v <= maxL))
-        conds += X.write_decode_module(work, tier, fam, s, lens, valid)
+        conds += X.write_decode_module(work, ftier, fam, s, lens, valid)
     conds = C.only(conds)
     raw = run_conditions(conds, timeout)
     obs, _ = to_obligations('C06', conds, raw, schema_text=fam['text'])
     from .chrun import concrete_reach
     concrete_reach(conds, obs)          # count-guard obligations carry a concrete sample (reachability witness)
+    from .chrun import stub_validation
+    nstub = stub_validation('C06', conds, obs)
     return C.finish('C06', tier, obs, t0, functions=X.FUNCS_DEC + X.FUNCS_ENC,
                     bounds=dict(family='F without float members', input_length='0..min(static size+3,%d) quick / +6,40 thorough; all bytes symbolic; both byte orders' % maxL,
                                 outside='inputs longer than the bound; float members (CrossHair realises float bytes); wall-clock/RSS of the native call'),
                     assumptions=['engine patches 1-6; error-message formatting stubbed (message text is not the subject)',
                                  'reachability twin per (shape, L) where the reference says a valid encoding of that length exists'],
-                    extra=dict(shapes=nshapes))
+                    extra=dict(shapes=nshapes, formatting_stub_validation='%d concrete error-path runs of the real code without the stub (a failing one is reported with the sample as witness)' % nstub))
